@@ -63,7 +63,10 @@ class Builder:
 
     def b_Event(self, j):
         from aw_core.models import Event
-        e = Event(id=j.get("id"), timestamp=dt_of(j["ts"]), duration=timedelta(microseconds=j["dur"]),
+        ts = dt_of(j["ts"])
+        if j.get("tzmin"):
+            ts = ts.astimezone(timezone(timedelta(minutes=j["tzmin"])))      # the same instant, written in another zone
+        e = Event(id=j.get("id"), timestamp=ts, duration=timedelta(microseconds=j["dur"]),
                   data=self.build(j.get("data", {})))
         return e
 
@@ -343,9 +346,13 @@ class Gen:
             durs = self.scope.get("durs", [0, 0, 1, 2, 3, 5])
             if self.scope.get("negdur"):
                 durs = durs + [-1, -2]
-            return {"$k": "Event", "ref": self.ref(), "id": None,
-                    "ts": BASE_US + rng.randint(0, grid) * MS, "dur": rng.choice(durs) * MS,
-                    "data": copy.deepcopy(rng.choice(data_pool))}
+            ev = {"$k": "Event", "ref": self.ref(), "id": rng.choice(self.scope["ids"]) if self.scope.get("ids") else None,
+                  "ts": BASE_US + rng.randint(0, grid) * MS + (rng.choice(self.scope["subms"]) if self.scope.get("subms") else 0),
+                  "dur": rng.choice(durs) * MS + (rng.choice(self.scope["subms"]) if self.scope.get("subms") else 0),
+                  "data": copy.deepcopy(rng.choice(data_pool))}
+            if self.scope.get("tzmins"):
+                ev["tzmin"] = rng.choice(self.scope["tzmins"])
+            return ev
         if ty == "TomlDoc":
             return self.toml_doc(rng, 0)
         if ty.startswith("Dict["):
